@@ -129,7 +129,7 @@ func (i *Interp) decide(c *Term) bool {
 	k := len(ps.trace)
 	if k < len(ps.prefix) {
 		d := ps.prefix[k]
-		if d.Cond != c {
+		if d.Cond != nil && d.Cond != c {
 			panic(engineBug{fmt.Sprintf("nondeterministic replay at decision %d: %s vs %s (%s)", k, d.Cond, c, i.where())})
 		}
 		ps.trace = append(ps.trace, d)
@@ -401,7 +401,7 @@ func (i *Interp) panicString(v value) string {
 }
 
 // Explore runs every feasible path of one job.
-func (i *Interp) Explore(job *Job, setup, run *ssa.Function, lim Limits) *JobResult {
+func (i *Interp) Explore(job *Job, setup, run *ssa.Function, lim Limits, base []Decision, donate func([]Decision) bool) *JobResult {
 	res := &JobResult{Job: job, Covers: map[string]int{}}
 	i.job = job
 	i.maxSteps = lim.MaxSteps
@@ -445,7 +445,12 @@ func (i *Interp) Explore(job *Job, setup, run *ssa.Function, lim Limits) *JobRes
 	}
 	mark := len(i.undo)
 
-	var prefix []Decision
+	prefix := append([]Decision(nil), base...)
+	for k := range prefix {
+		prefix[k].Cond = nil
+		prefix[k].Done = true
+	}
+	nbase := len(prefix)
 	for {
 		ps := newPathState(prefix)
 		i.ps = ps
@@ -500,10 +505,23 @@ func (i *Interp) Explore(job *Job, setup, run *ssa.Function, lim Limits) *JobRes
 		i.rollback(mark)
 
 		tr := ps.trace
-		for len(tr) > 0 && tr[len(tr)-1].Done {
+		// donate the shallowest open alternative to an idle worker
+		if donate != nil {
+			for k := nbase; k < len(tr); k++ {
+				if !tr[k].Done {
+					alt := append([]Decision(nil), tr[:k+1]...)
+					alt[k].Taken = !alt[k].Taken
+					if donate(alt) {
+						tr[k].Done = true
+					}
+					break
+				}
+			}
+		}
+		for len(tr) > nbase && tr[len(tr)-1].Done {
 			tr = tr[:len(tr)-1]
 		}
-		if len(tr) == 0 {
+		if len(tr) <= nbase {
 			break
 		}
 		tr[len(tr)-1].Taken = !tr[len(tr)-1].Taken
